@@ -14,8 +14,10 @@ import (
 
 	"verifharness/core"
 	"verifharness/histx"
+	"verifharness/props/c03"
 	"verifharness/refmodel"
 	"verifharness/storedrv"
+	"verifharness/sysrun"
 )
 
 // Case: one of three kinds. hist: a store history (E4). chain: a C02-style squash chain. limit: an operation block under a 12-byte limit.
@@ -26,6 +28,16 @@ type Case struct {
 	Blocks [][]refmodel.Op `json:"blocks,omitempty"`
 	Pre    int             `json:"pre,omitempty"`
 	Ops    []refmodel.Op   `json:"ops,omitempty"`
+	Tree   *c03.Case       `json:"tree,omitempty"` // kind "pipeline": a fork history through the real fork resolver and pipeline
+}
+
+// evalPipeline runs a C03 fork history and keeps the size verdict only (the other oracles of that run are C03's).
+func evalPipeline(cs Case) (*core.Fail, bool) {
+	f, nt := c03.Eval(*cs.Tree)
+	if f != nil && strings.HasPrefix(f.Key, "store-size-differs") {
+		return core.Failf("size-drift:pipeline-undo", "%s", f.What), nt
+	}
+	return nil, nt
 }
 
 const limit = 12
@@ -144,12 +156,15 @@ func Eval(cs Case) (*core.Fail, bool) {
 		return evalChain(cs)
 	case "limit":
 		return evalLimit(cs)
+	case "pipeline":
+		return evalPipeline(cs)
 	}
 	return core.Failf("harness:kind", "unknown kind %q", cs.Kind), false
 }
 
 func Run(ctx *core.Ctx) int {
 	ctx.Level = "model_checking"
+	defer sysrun.CleanupAll()
 	if ctx.Replay != "" {
 		return core.RunReplay(ctx, Eval)
 	}
@@ -218,6 +233,21 @@ func Run(ctx *core.Ctx) int {
 				}
 			}
 		}
+		// fork histories through the real fork resolver and pipeline (undo handling above the store: which recorded
+		// deltas are reversed, and how often), size oracle after every step
+		pn, p2, p3 := 5, 10, 7
+		if ctx.Thorough() {
+			pn, p2, p3 = 7, 13, 9
+		}
+		if !c03.EnumTrees(pn, p2, p3, func(t c03.Case) bool {
+			if t.LibLag != 0 || t.Prod {
+				return true
+			}
+			tc := t
+			return emit(Case{Kind: "pipeline", Tree: &tc})
+		}) {
+			return
+		}
 		for _, c := range limitCombos {
 			alpha := refmodel.OpAlphabet(c, 3, []uint64{0, 1})
 			for pre := range refmodel.PreStates(c) {
@@ -241,7 +271,7 @@ func Run(ctx *core.Ctx) int {
 	ctx.Cov["evaluations"] = st.Evaluations + int64(trans)
 	ctx.Cov["distinct_nontrivial"] = st.NonTrivial + int64(undos+merges)
 	ctx.Cov["exhaustive"] = true
-	ctx.Cov["rule"] = fmt.Sprintf("E4: per (policy,value type), BFS to depth %d over the histories of one real FullKV, events {apply one of 4 blocks (create / size-changing update / delete_prefix+create / create-delete-update in one block), undo the top block with its recorded deltas, merge one of 3 partial stores built through the host interface, save+load}; states deduplicated on (sorted content, SizeBytes, reversible stack); in every state SizeBytes() == sum(len key + len value) over Iter. Every transition is executed by the real store (traces_validated_against_impl = transitions). Side sweeps (E1): every 3-block squash chain x cuts x reload with the same invariant; with a 12-byte limit (hook VerifSetLimits) every operation sequence <=3 from 3 pre-states: Flush says 'became too big' iff the model's size exceeds the limit right after a create/update. Non-trivial: undo/merge transitions; limit cases at or above half the limit.", depth)
+	ctx.Cov["rule"] = fmt.Sprintf("E4: per (policy,value type), BFS to depth %d over the histories of one real FullKV, events {apply one of 4 blocks (create / size-changing update / delete_prefix+create / create-delete-update in one block), undo the top block with its recorded deltas, merge one of 3 partial stores built through the host interface, save+load}; states deduplicated on (sorted content, SizeBytes, reversible stack); in every state SizeBytes() == sum(len key + len value) over Iter. Every transition is executed by the real store (traces_validated_against_impl = transitions). Side sweeps (E1): every 3-block squash chain x cuts x reload with the same invariant; with a 12-byte limit (hook VerifSetLimits) every operation sequence <=3 from 3 pre-states: Flush says 'became too big' iff the model's size exceeds the limit right after a create/update. Non-trivial: undo/merge transitions; limit cases at or above half the limit. Pipeline level: the C03 fork histories (every arrival sequence of <=5 blocks, 2-branch ladders <=10, 3-branch ladders <=7; thorough 7/13/9) through the real fork resolver and Pipeline.ProcessBlock with SizeBytes == keys+values after every new/undo step.", depth)
 	ctx.Assume = []string{
 		"merge and save+load clear the reversible stack (squashing happens on final segments only)",
 		"limit sweep restricted to byte policies and integer types whose text encoding is canonical",
